@@ -43,7 +43,7 @@ def bits (l : List Bool) : String := String.mk (l.map (fun b => if b then '1' el
 def showSt (C : Cfg) (s : St) : String :=
   s!"F={bits s.failed} C={bits s.conn} R={showList showRat s.rem} D={bits s.dOpen} B={bits s.cbOpen} S={bits s.secConn} " ++
   s!"NF={bits s.netFailed} T={showList showRat s.timer} P={showList showRat s.pTimer} K={bits s.check} " ++
-  s!"FS={";".intercalate (s.failedSecs.map (showList toString))} ok={bits [isolatedOK C s, switchesAgree C s, isNormal C s, wfB C, invJ C s]}"
+  s!"FS={";".intercalate (s.failedSecs.map (showList toString))} ok={bits [isolatedOK C s, switchesAgree C s, isNormal C s, wfB C, invJ C s, wfB2 C]}"
 
 def opsCtl (st : Option (Cfg × St)) (args : List String) : Option (Option (Cfg × St) × String) :=
   match args, st with
